@@ -1232,7 +1232,8 @@ udp_ep_init(
 	ep->tx_ring.descs =
 	    NNI_ALLOC_STRUCTS(ep->tx_ring.descs, NNG_UDP_TXQUEUE_LEN);
 	if (ep->tx_ring.descs == NULL) {
-		NNI_FREE_STRUCT(ep);
+		// ep is part of the dialer/listener allocation, which the
+		// core releases (after calling udp_ep_fini) when we fail.
 		return (NNG_ENOMEM);
 	}
 	ep->tx_ring.size = NNG_UDP_TXQUEUE_LEN;
